@@ -67,3 +67,16 @@ package xpush
 //@   ghost was = s.closed at call:Lock#1
 //@   ensures was ==> result == protocol.ErrClosed
 //@   ensures !was ==> isnil(result) && s.closed && closed(s.closeQ)
+//@
+//@ func (*socket).SendMsg
+//@   ensures sel("select#1") == 1 ==> called("Signal") && isnil(result)
+//@   before call:Signal#1 assert held(s.Mutex)
+//@
+//@ func (*socket).sender
+//@   before go:send#1 assert held(s.Mutex) && m != nil
+//@
+//@ func (*pipe).send
+//@   before call:append#1 assert held(s.Mutex) && !s.closed && !p.closed
+//@   before call:append#1 assert isnil(err)
+//@   at call:append#1 assert called("SendMsg")
+//@   before call:Broadcast#1 assert held(s.Mutex)
